@@ -60,6 +60,12 @@ def valid_bins(nchrom, off, start, end, clen):
         forall(0, nchrom, lambda c: And(off[c] < off[c + 1], start[off[c]] == 0, end[off[c + 1] - 1] == clen[c])),
         forall(0, nb, lambda k: start[k] < end[k]),
         forall(0, nchrom, lambda c: forall(off[c], off[c + 1] - 1, lambda k: end[k] == start[k + 1])),
+        # pairwise form of "consecutive, non-empty" (follows from the two clauses above by
+        # induction on the distance: lemma valid_bins.ordered in lemmas/math.py)
+        forall(0, nchrom, lambda c: forall2(off[c], off[c + 1], off[c], off[c + 1],
+                                            lambda k1, k2: Implies(k1 < k2, end[k1] <= start[k2]))),
+        # chromosome offsets are increasing pairwise (same induction on off[c] < off[c+1])
+        forall2(0, nchrom + 1, 0, nchrom + 1, lambda c1, c2: Implies(c1 < c2, off[c1] < off[c2])),
     )
 
 
@@ -88,3 +94,33 @@ def _ite_struct(c, a, b):
     if isinstance(a, tuple):
         return tuple(_ite_struct(c, x, y) for x, y in zip(a, b))
     return If(c, a, b)
+
+
+def fixed_bins(nchrom, off, start, end, clen, b):
+    """the meaning C20 gives to 'has bin size b': every bin of chromosome c is
+    [k*b, min((k+1)*b, clen[c]))"""
+    return And(b >= 1, forall(0, nchrom, lambda c: forall(off[c], off[c + 1], lambda k: And(
+        start[k] == (k - off[c]) * b, end[k] == Min(start[k] + b, clen[c])))))
+
+
+def chrom_of_bin_ok(nchrom, off, chrom):
+    """bins/chrom column agrees with the chromosome offsets"""
+    return forall(0, nchrom, lambda c: forall(off[c], off[c + 1], lambda k: chrom[k] == c))
+
+
+def valid_bins_at(off, start, end, clen, c):
+    """valid_bins restricted to chromosome c (what a per-chromosome query needs;
+    follows from valid_bins by instantiating c)"""
+    nb = L(start)
+    lo, hi = off[c], off[c + 1]
+    return And(
+        L(end) == nb, 0 <= lo, lo < hi, hi <= nb, start[lo] == 0, end[hi - 1] == clen[c],
+        forall(lo, hi, lambda k: start[k] < end[k]),
+        forall(lo, hi - 1, lambda k: end[k] == start[k + 1]),
+        forall2(lo, hi, lo, hi, lambda k1, k2: Implies(k1 < k2, end[k1] <= start[k2])),
+    )
+
+
+def fixed_bins_at(off, start, end, clen, c, b):
+    return And(b >= 1, forall(off[c], off[c + 1], lambda k: And(
+        start[k] == (k - off[c]) * b, end[k] == Min(start[k] + b, clen[c]))))
